@@ -1,5 +1,5 @@
+import math
 import random
-import sys
 import uuid
 from collections.abc import Iterator
 from datetime import datetime, timedelta
@@ -87,7 +87,7 @@ def generate_ge(predicate: GePredicate) -> Iterator:
         case datetime() as dt:
             yield from (dt - timedelta(days=days) for days in range(1, 6))
         case float():
-            yield from random_floats(upper=predicate.v - sys.float_info.epsilon)
+            yield from random_floats(upper=math.nextafter(predicate.v, -math.inf))
         case int():
             yield from random_ints(upper=predicate.v - 1)
         case str():
